@@ -83,13 +83,14 @@ Fixpoint upto_comma (l : bytes) : bytes :=
 Definition flags_of_info (info : bytes) : bytes :=
   filter (fun c => mem_n c (upto_comma (letters_of info))) sys_letters.
 
-Record served := { s_uid : N; s_key : bytes; s_flags : bytes; s_cid : N; s_recent : bool }.
+Record served := { s_uid : N; s_key : bytes; s_info : bytes; s_flags : bytes; s_cid : N;
+                   s_recent : bool }.
 
 (* MailboxData.messages(): records in uid-list order whose file exists *)
 Definition serve (u : uidl) (fl : list mfile) : list served :=
   flat_map (fun r =>
     match find_file fl (r_key r) with
-    | Some x => [{| s_uid := r_uid r; s_key := m_key x;
+    | Some x => [{| s_uid := r_uid r; s_key := m_key x; s_info := m_info x;
                     s_flags := flags_of_info (m_info x); s_cid := m_cid x;
                     s_recent := sub_eqb (m_sub x) SNew |}]
     | None => []
